@@ -24,10 +24,11 @@ Lemma uget_latest_spec evl g w e sd en :
        (ProvModel.o_exists ob = true -> s_ex (gs en' sd) = ExExists /\ s_hash (gs en' sd) = Some (ProvModel.o_data ob) /\
                                        s_path (gs en' sd) = Some (pstr (ProvModel.o_path ob)))) /\
     (s_oid (gs en sd) = None -> s_path (gs en' sd) = s_path (gs en sd) /\ s_hash (gs en' sd) = s_hash (gs en sd) /\
-                                s_chg (gs en' sd) = s_chg (gs en sd)).
+                                s_chg (gs en' sd) = s_chg (gs en sd) /\
+                                (is_discarded (e_ign en) = false -> s_ex (gs en' sd) = ExUnknown)).
 Proof.
   intros I He Hn. pose proof (i_cfg _ _ _ I) as Hcfg. pose proof (i_tape _ _ _ I) as Ht.
-  pose proof (i_ents _ _ _ I e en He Hn) as EO. destruct (eo_side _ _ _ _ _ EO sd) as [c1 c2 c3 c4].
+  pose proof (i_ents _ _ _ I e en He Hn) as EO. destruct (eo_side _ _ _ _ _ EO sd) as [c1 c2 c3 c5 c4].
   destruct (s_oid (gs en sd)) as [o|] eqn:Eo.
   - destruct (c4 o eq_refl) as (k & ob & -> & Hob & Hk & F).
     destruct (sh_files _ _ (i_shape _ _ _ I sd) k ob Hk Hob) as (Hkf & n & Hp & Hnok).
@@ -53,11 +54,11 @@ Proof.
     unfold uget_latest, get_e, lift, get_ent. rewrite Hn. cbn [rbind]. rewrite Eo.
     destruct (ex_in_gone (s_ex (gs en sd))) eqn:Eg.
     + exists w, en, None. split; [reflexivity|]. split; [apply weff_refl; assumption|]. split; [apply prog_refl|].
-      split; [exact c1|]. split; [intros; discriminate|auto].
+      split; [exact c1|]. split; [intros; discriminate|]. intros _. repeat (split; [reflexivity|]). intros Hd. apply (c5 eq_refl Hd).
     + destruct (plain_w w Ht e sd (fun y => w_ex y ExUnknown) en Hn) as (w' & H1 & W1); [intros; split; reflexivity|].
       exists w', (ss en sd (w_ex (gs en sd) ExUnknown)), None. split; [exact H1|]. split; [exact W1|].
       split; [apply (prog_plain en sd (fun y => w_ex y ExUnknown)); intros; repeat split; reflexivity|].
-      rewrite gs_ss_same. cbn [w_ex s_otype s_ex s_hash s_path s_chg]. split; [exact c1|]. split; [intros; discriminate|auto].
+      rewrite gs_ss_same. cbn [w_ex s_otype s_ex s_hash s_path s_chg]. split; [exact c1|]. split; [intros; discriminate|]. intros _. auto.
 Qed.
 
 Lemma flagged_prog en en' sd nw m : prog en en' sd nw m ->
@@ -122,9 +123,6 @@ Proof.
     - exact WT.
     - apply SJ. apply (i_idx _ _ _ I).
     - intros x sd0 Hne. apply Hgo. exact Hne.
-    - intros sd0. destruct (Bool.bool_dec sd0 sd) as [->|Hne].
-      + rewrite Hgsd. simpl. apply (i_notmp _ _ _ I).
-      + assert (sd0 = negb sd) by (destruct sd0, sd; try reflexivity; contradiction). subst sd0. rewrite Hgs. apply (i_notmp _ _ _ I).
     - intros x xn Hne Hx2 Hxn sd0 k0 Hk0. split; [apply Hobj|]. split; [auto|reflexivity].
     - intros sd0 k0 Hk0 Hlt. rewrite Hprov in Hlt. destruct (i_cov _ _ _ I sd0 k0 Hk0 Hlt) as [(x & xn & Hxn & Hox)|Hp]; [left|right; exact Hp].
       destruct (Nat.eq_dec x e) as [->|Hne].
@@ -155,7 +153,7 @@ Proof.
              split; [right; exists (ProvModel.o_data ob); split; [reflexivity|rewrite Q3; left; reflexivity]|]. split; intros; discriminate.
           -- destruct (Fdead eq_refl) as (_ & Xh & Xp). rewrite Xh, Xp. split; [exact Q1|]. split; [exact Q4|exact Q6].
         * intros Hd Hcs. destruct (fo_mirror _ _ _ _ _ _ _ _ FO Hd Hcs) as (Ml & _). apply (Flive Ml).
-      + intros Hno. destruct (Hnone Hno) as (X1 & X2 & X3). destruct (so_empty _ _ _ _ _ _ (eo_side _ _ _ _ _ EO sd) Hno) as (Y1 & Y2 & Y3 & _).
+      + intros Hno. destruct (Hnone Hno) as (X1 & X2 & X3 & X4). destruct (so_empty _ _ _ _ _ _ (eo_side _ _ _ _ _ EO sd) Hno) as (Y1 & Y2 & Y3 & _).
         rewrite X1, X2, X3. auto. }
   split; [exact HI|]. split.
   - intros en2 k ob Hen2 Ho2 Hob2. rewrite Hst, SA in Hen2. rewrite (nth_list_upd_eq _ _ _ _ Hn) in Hen2. injection Hen2 as <-.
